@@ -71,36 +71,32 @@ package idempotency
 // maybeWriteCachedResponse (New$1): look the key up and, if a response is stored, replay it.
 // Response side (ghosts of fiber_ctx.spec / mw_C17.spec): sentStatus, sentBody, hdrCnt/hdrVal -- the status,
 // body and header value lists of the response; their values at entry are whatever ran before left there.
-// "Same answer" is stated on the resulting response, not on what the replay adds:
-//   hit-status, hit-body, hit-headers-same-as-original   the response equals the stored one
-//   hit-headers-all-values-in-order                       every stored value is added, in order (weaker)
-// KNOWN TO FAIL on the unchanged code (genuine, the replay merges into the response instead of replacing it):
-//   hit-headers-same-as-original  a header already present is duplicated  (replay/known/c17_dupheaders_test.go)
-//   hit-body (empty stored body)  a body already present is kept          (replay/known/c17_emptybody_test.go)
+// "Same answer" is stated on the resulting response, not on what the replay adds: for every stored header the
+// response ends up with exactly the stored values in order (earlier values are deleted first), the body is
+// the stored body also when that is empty (hit-status, hit-body, hit-headers-same-as-original).
+// Before the repair "replay replaces" (fixes/c17_replay_replaces.diff) the last two failed:
+// replay/known/c17_dupheaders_test.go, replay/known/c17_emptybody_test.go.
 // ---------------------------------------------------------------------------------------------
 //@ macro stored(k) = stVal[cfg.Storage][k]
 //@ macro wroteNothing() = sentStatus == old(sentStatus) && sentBody == old(sentBody) && hdrCnt == old(hdrCnt) && hdrVal == old(hdrVal)
-//@ macro appendedStored(k) = forallS(h, decHas(stored(k), h) ==> hdrCnt[h] == old(hdrCnt[h]) + decCnt(stored(k), h) && forall(i, 0, decCnt(stored(k), h), hdrVal[h][old(hdrCnt[h]) + i] == decHdr(stored(k), h, i)) && forall(j, 0, old(hdrCnt[h]), hdrVal[h][j] == old(hdrVal[h][j])))
 //@ macro identicalToStored(k) = forallS(h, decHas(stored(k), h) ==> hdrCnt[h] == decCnt(stored(k), h) && forall(i, 0, decCnt(stored(k), h), hdrVal[h][i] == decHdr(stored(k), h, i)))
 
 //@ func New$1
 //@   loop 1
-//@     invariant visited-appended: forallS(h, seen(h) ==> indom(res.Headers, h) && hdrCnt[h] == old(hdrCnt[h]) + len(res.Headers[h]) && forall(i, 0, len(res.Headers[h]), hdrVal[h][old(hdrCnt[h]) + i] == res.Headers[h][i]) && forall(j, 0, old(hdrCnt[h]), hdrVal[h][j] == old(hdrVal[h][j])))
+//@     invariant visited-replaced: forallS(h, seen(h) ==> indom(res.Headers, h) && hdrCnt[h] == len(res.Headers[h]) && forall(i, 0, len(res.Headers[h]), hdrVal[h][i] == res.Headers[h][i]))
 //@     invariant unvisited-untouched: forallS(h, !seen(h) ==> hdrCnt[h] == old(hdrCnt[h]) && hdrVal[h] == old(hdrVal[h]))
 //@   loop 2
-//@     invariant others-visited: forallS(h, h != header && seen(h) ==> indom(res.Headers, h) && hdrCnt[h] == old(hdrCnt[h]) + len(res.Headers[h]) && forall(i, 0, len(res.Headers[h]), hdrVal[h][old(hdrCnt[h]) + i] == res.Headers[h][i]) && forall(j, 0, old(hdrCnt[h]), hdrVal[h][j] == old(hdrVal[h][j])))
+//@     invariant others-visited: forallS(h, h != header && seen(h) ==> indom(res.Headers, h) && hdrCnt[h] == len(res.Headers[h]) && forall(i, 0, len(res.Headers[h]), hdrVal[h][i] == res.Headers[h][i]))
 //@     invariant others-unvisited: forallS(h, !seen(h) ==> hdrCnt[h] == old(hdrCnt[h]) && hdrVal[h] == old(hdrVal[h]))
 //@     invariant this-header-visited: seen(header) && indom(res.Headers, header) && vals == res.Headers[header]
 //@     invariant index-in-range: rangeindex < len(vals)
-//@     invariant this-header-count: hdrCnt[header] == old(hdrCnt[header]) + rangeindex + 1
-//@     invariant this-header-values-so-far: forall(i, 0, rangeindex + 1, hdrVal[header][old(hdrCnt[header]) + i] == vals[i])
-//@     invariant this-header-earlier-values-kept: forall(j, 0, old(hdrCnt[header]), hdrVal[header][j] == old(hdrVal[header][j]))
+//@     invariant this-header-count: hdrCnt[header] == rangeindex + 1
+//@     invariant this-header-values-so-far: forall(i, 0, rangeindex + 1, hdrVal[header][i] == vals[i])
 //@   ensures hit-only-if-stored: result0 ==> stHas[cfg.Storage][key]
 //@   ensures miss-means-absent: !result0 && result1 == nil ==> !stHas[cfg.Storage][key]
 //@   ensures miss-or-lookup-error-writes-nothing: !result0 ==> wroteNothing()
 //@   ensures hit-status: result0 && result1 == nil ==> sentStatus == decStatus(stored(key))
 //@   ensures hit-body: result0 && result1 == nil ==> sentBody == decBody(stored(key))
-//@   ensures hit-headers-all-values-in-order: result0 ==> appendedStored(key)
 //@   ensures hit-headers-same-as-original: result0 ==> identicalToStored(key)
 //@   ensures hit-adds-no-other-header: result0 ==> forallS(h, !decHas(stored(key), h) ==> hdrCnt[h] == old(hdrCnt[h]) && hdrVal[h] == old(hdrVal[h]))
 //@   ensures store-only-expires: stVal == old(stVal) && forallI(s, forallS(k, stHas[s][k] ==> old(stHas[s][k])))
@@ -120,7 +116,8 @@ package idempotency
 //@   ensures miss-means-absent: !result0 && result1 == nil ==> !stHas[cfg.Storage][key]
 //@   ensures miss-or-lookup-error-writes-nothing: !result0 ==> wroteNothing()
 //@   ensures hit-status: result0 && result1 == nil ==> sentStatus == decStatus(stored(key))
-//@   ensures hit-headers-all-values-in-order: result0 ==> appendedStored(key)
+//@   ensures hit-body: result0 && result1 == nil ==> sentBody == decBody(stored(key))
+//@   ensures hit-headers-same-as-original: result0 ==> identicalToStored(key)
 //@   ensures hit-adds-no-other-header: result0 ==> forallS(h, !decHas(stored(key), h) ==> hdrCnt[h] == old(hdrCnt[h]) && hdrVal[h] == old(hdrVal[h]))
 //@   ensures store-only-expires: forallI(s, forallS(k, stHas[s][k] ==> old(stHas[s][k])))
 
@@ -162,7 +159,8 @@ package idempotency
 //@   ensures lock-failure-is-error-without-handler: called(Locker.Lock) && last(Locker.Lock) != nil ==> result != nil && nextCalls == 0
 //@   ensures answered-from-store-without-handler: lookups >= 1 && lastHit ==> nextCalls == 0 && stHas[cfg.Storage][reqKey(c)]
 //@   ensures replay-status: lookups >= 1 && lastHit && result == nil ==> sentStatus == decStatus(stored(reqKey(c)))
-//@   ensures replay-headers-all-values-in-order: lookups >= 1 && lastHit ==> appendedStored(reqKey(c))
+//@   ensures replay-body: lookups >= 1 && lastHit && result == nil ==> sentBody == decBody(stored(reqKey(c)))
+//@   ensures replay-headers-same-as-original: lookups >= 1 && lastHit ==> identicalToStored(reqKey(c))
 //@   ensures handler-at-most-once: nextCalls <= 1
 //@   ensures handler-error-returned-not-stored: !passthrough(c) && nextCalls == 1 && last(@fiber.Ctx.Next) != nil ==> result == last(@fiber.Ctx.Next) && !called(@fiber.Storage.Set)
 //@   ensures success-is-stored: !passthrough(c) && nextCalls == 1 && last(@fiber.Ctx.Next) == nil && result == nil ==> stHas[cfg.Storage][reqKey(c)] && decStatus(stored(reqKey(c))) == rStatus(ctxResp(c), epochNow) && decBody(stored(reqKey(c))) == rBody(ctxResp(c), epochNow)
